@@ -445,6 +445,21 @@ static std::string ext_once(uint64_t p, uint64_t e, const std::string& op, uint6
     if (op != "iter") o << " | " << g.seed();
     return o.str();
 }
+// gfqx <w> <p> <e> <seed> <n>     GFqExtFast<int32_t> (w=32) / GFqExt<int64_t> (w=64) ::random(g, r): exponents, then "| state"
+template <class FX> static std::string gfqx_once(uint64_t p, uint64_t e, uint64_t seed, int n) {
+    FX F((typename FX::Residu_t) p, (typename FX::Residu_t) e);
+    GivRandom g(seed);
+    std::ostringstream o;
+    o << (unsigned long long) F.cardinality();
+    for (int i = 0; i < n; ++i) { typename FX::Element r = 0; F.random(g, r); o << " " << (long long) r; }
+    o << " | " << g.seed();
+    return o.str();
+}
+struct GfqxCtx { int w; uint64_t p, e, seed; int n; };
+static std::string gfqx_f(void* c) {
+    GfqxCtx* x = (GfqxCtx*) c;
+    return x->w == 32 ? gfqx_once<GFqExtFast<int32_t> >(x->p, x->e, x->seed, x->n) : gfqx_once<GFqExt<int64_t> >(x->p, x->e, x->seed, x->n);
+}
 struct ExtCtx { uint64_t p, e; std::string op; uint64_t seed; int n; int64_t s; };
 static std::string ext_f(void* c) { ExtCtx* x = (ExtCtx*) c; return ext_once(x->p, x->e, x->op, x->seed, x->n, x->s); }
 
@@ -712,6 +727,11 @@ static std::string dispatch(const std::string& kind, const Args& a) {
         QfCtx c; c.form = a[0]; c.seed = pu64(a[1]); c.a = Args(a.begin() + 2, a.end());
         return twice(qf_f, &c);
     }
+    if (kind == "gfqx") {
+        if (a.size() < 5) return "BAD-LINE";
+        GfqxCtx c; c.w = atoi(a[0].c_str()); c.p = pu64(a[1]); c.e = pu64(a[2]); c.seed = pu64(a[3]); c.n = atoi(a[4].c_str());
+        return twice(gfqx_f, &c);
+    }
     if (kind == "ext") {
         if (a.size() < 5) return "BAD-LINE";
         ExtCtx c; c.p = pu64(a[0]); c.e = pu64(a[1]); c.op = a[2]; c.seed = pu64(a[3]); c.n = atoi(a[4].c_str()); c.s = a.size() > 5 ? pi64(a[5]) : 0;
@@ -753,7 +773,7 @@ int main(int argc, char** argv) {
     REG("bf", ModularBalanced<float>); REG("bd", ModularBalanced<double>);
     REG("ef", ModularExtended<float>); REG("ed", ModularExtended<double>);
     REG("mg32", Montgomery<int32_t>); REG("log16", Modular<Log16>);
-    REG("gfq32", GFqDom<int32_t>); REG("gfq64", GFqDom<int64_t>); REG("gf2", GF2); REG("gfqx32", GFqExtFast<int32_t>); REG("gfqx64", GFqExt<int64_t>);
+    REG("gfq32", GFqDom<int32_t>); REG("gfq64", GFqDom<int64_t>); REG("gf2", GF2);
     REG("zi64", UnparametricZRing<int64_t>); REG("zu64", UnparametricZRing<uint64_t>); REG("zd", UnparametricZRing<double>);
     REGP("i32", Modular<int32_t>); REGP("u64", Modular<uint64_t>); REGP("d", Modular<double>); REGP("bi32", ModularBalanced<int32_t>);
     REGP("bd", ModularBalanced<double>); REGP("mg32", Montgomery<int32_t>); REGP("gfq32", GFqDom<int32_t>); REGP("gfq64", GFqDom<int64_t>);
